@@ -160,6 +160,30 @@ PROPS['C08'] = {
     'assumptions': ['multi-threaded runtimes and real sockets are not modelled'],
 }
 
+PROPS['C06'] = {
+    'level': 'proof',
+    'technique': 'Lean 4 proof on a message-level model of the RTR session (diff application lemma with ASPA keyed by customer, '
+                 'one-step theorem, induction over histories) + differential runs of the real Client against the real Server',
+    'claim': 'Lean 4 proofs: the gated diff applied to the restricted old set gives the restricted new set (all well-formed sets, '
+             'ASPA keyed by customer), a reset gives the restricted set; whenever a client step finishes - serial query, fall-back to '
+             'reset, version negotiation through Error code 4 - the data is exactly the source\'s current set restricted to the '
+             'negotiated version, the state is the source\'s, from v1 on the timing too (step_sync); against a peer capped at k the '
+             'negotiated version is k (downgrade); by induction over any interleaving of <2^32 source updates and client steps within '
+             'one session (history_sync_partial). Partial: timers, IO_TIMEOUT and the Serial-Notify-instead-of-Cache-Response race make '
+             'a step fail and are modelled as failure only; that the bytes written are the PDUs read is C07.',
+    'note': 'The real rtr::client::Client runs against the real rtr::server::Server over in-memory pipes on a paused-clock '
+            'current-thread runtime, with a reference PayloadSource (history, diffs retained or dropped, serial crossing 2^32) and a '
+            'relay that caps the protocol version. The oracle applies the recorded updates to the previous data and compares with the '
+            'source (impl-only), the model predicts every update list (correspondence). INITIAL_VERSION/MAX_VERSION regenerated.',
+    'shards': {'quick': 4, 'thorough': 16},
+    'budget': {'quick': 900, 'thorough': 7200},
+    'rule': 'all 4 initial versions x caps {-,0,1,2} x initial client states {none, current, stale serial, foreign session} with 1-3 '
+            'steps; random histories of 1-6 steps with 0-2 source updates between steps (sets over 12 origins v4/v6, 4 router keys, 4 ASPA '
+            'customers x 4 provider lists), diffs kept or dropped, session changes, notifications (incl. missing/duplicate ones).',
+    'trusted_base': ['tokio time (paused clock auto-advance), broadcast channel; the reference PayloadSource is harness code mirrored by Src in the model'],
+    'assumptions': ['source sets are well formed (one ASPA per customer)'],
+}
+
 NOT_APPLICABLE = {
 }
 for _i in range(1, 18):
